@@ -625,6 +625,18 @@ impl Xot {
     /// [`SpanInfo`](`crate::SpanInfo`) which describes where nodes in the
     /// tree are located in the source text.
     pub fn parse_with_span_info(&mut self, xml: &str) -> Result<(Node, SpanInfo), ParseError> {
+        // xmlparser only recognizes an XML declaration when "<?xml" is followed
+        // by a space, while any white space is allowed there. Swapping that one
+        // character for a space keeps every position in the text the same.
+        let respaced;
+        let start = if xml.starts_with('\u{feff}') { 3 } else { 0 };
+        let xml = match xml.as_bytes().get(start + 5) {
+            Some(b'\t' | b'\n' | b'\r') if xml[start..].starts_with("<?xml") => {
+                respaced = format!("{} {}", &xml[..start + 5], &xml[start + 6..]);
+                respaced.as_str()
+            }
+            _ => xml,
+        };
         let tokenizer = Tokenizer::from(xml);
         let (span_info, builder) = self._parse(tokenizer)?;
         // we expect both a document as the current node (everything else being
